@@ -1,6 +1,6 @@
 (* Extract.v — extraction of the executable model to OCaml (ExtrOcamlBasic only; Z, N, nat,
    string and ascii stay the extracted inductives; no Extract Constant). *)
-From JP Require Import Model KeyDefs.
+From JP Require Import Model KeyDefs FunParse FiltChain.
 Require Import ExtrOcamlBasic.
 Extraction "model.ml" parse_path parse_path_pinned eval_doc st_init next_call_state lib_filter_names lib_agg_names
-  get_indexes mk_slice py_slice py_index wf_node spec_doc acc_clean erase filters_call_free spec_calls spec_err ctext_ok key_path dot_path chain_path chain_path0 padded_path chain_fun_path fchain_path fchain_fun_path fchain_path0 fpadded_path fpadded_fun_path fchain_fun_path0.
+  get_indexes mk_slice py_slice py_index wf_node spec_doc acc_clean erase filters_call_free spec_calls spec_err ctext_ok key_path dot_path chain_path chain_path0 padded_path chain_fun_path fchain_path fchain_fun_path fchain_path0 fpadded_path fpadded_fun_path fchain_fun_path0 fstep_ok fstep_okp fname_ok.
